@@ -978,9 +978,10 @@ bool value_t::is_less_than(const value_t& val) const
     case INTEGER:
     case AMOUNT: {
       bool no_amounts = true;
-      foreach (const balance_t::amounts_map::value_type& pair,
-               as_balance().amounts) {
-        if (pair.second >= val)
+      balance_t::amounts_array sorted;
+      as_balance().sorted_amounts(sorted);
+      foreach (const amount_t * amount, sorted) {
+        if (*amount >= val)
           return false;
         no_amounts = false;
       }
@@ -1124,9 +1125,10 @@ bool value_t::is_greater_than(const value_t& val) const
     case INTEGER:
     case AMOUNT: {
       bool no_amounts = true;
-      foreach (const balance_t::amounts_map::value_type& pair,
-               as_balance().amounts) {
-        if (pair.second <= val)
+      balance_t::amounts_array sorted;
+      as_balance().sorted_amounts(sorted);
+      foreach (const amount_t * amount, sorted) {
+        if (*amount <= val)
           return false;
         no_amounts = false;
       }
